@@ -73,6 +73,7 @@ def parseEnv (j : Json) : Env :=
   let mros := (jA (jF j "mroNames")).map fun r => (jL r).map jN
   let ctx := (jA (jF j "ctx")).map fun p => (jN (jAt p 0), jN (jAt p 1))
   let metaA := (jA (jF j "meta")).map jN
+  let isNTA := (jA (jF j "isNT")).map jB
   let fields := (jA (jF j "fields")).map fun f => if jIsNull f then (Option.none : Option (List Nat)) else some ((jL f).map jN)
   let lc := jF j "litcls"
   let seq := jF j "seq"
@@ -91,7 +92,8 @@ def parseEnv (j : Json) : Env :=
     iteratorCls := jN (jF j "iterator")
     seqCls := fun o => jN (jF seq (seqOName o))
     mapCls := fun o => jN (jF mp (mapOName o))
-    metaOf := fun c => metaA[c]?.getD (jN (jF j "type")) }
+    metaOf := fun c => metaA[c]?.getD (jN (jF j "type"))
+    isNT := fun c => isNTA[c]?.getD false }
 
 def outStr : Out → String
   | .accept => "accept" | .reject => "reject" | .pedErr => "pedErr" | .tvMismatch => "tvMismatch" | .escape => "escape"
@@ -99,6 +101,10 @@ def outStr : Out → String
 def isStrAnn : Ann → Bool | .strAnn _ => true | _ => false
 
 def regionsEnv (env : Env) (a : Ann) : List String := if a.hasUnresolvedFwd env then ["fwdUnresolved"] else []
+/-- the value conforms, but some instance of an annotated NamedTuple class in it carries a field value that does not conform to the
+    field annotation (rejected by the repaired code; open finding `namedtupleFieldMismatch`) -/
+def regionsNT (env : Env) (a : Ann) (v : Val) : List String :=
+  if conforms env a v && !conformsNT env a v then ["namedtupleFieldMismatch"] else []
 def regions (a : Ann) (v : Val) : List String :=
   (if isStrAnn a then ["strAnn"] else []) ++
   (if v.hasNT then ["namedtuple"] else []) ++
@@ -133,12 +139,12 @@ end
 partial def valueDep : Guard → Bool
   | .not g => valueDep g
   | .and a b | .or a b => valueDep a || valueDep b
-  | .selfUnbound | .objIsinstanceOrigin | .objHasAttr _ | .asdictKeysEqFieldKeys | .objIsIterator | .objEmptyAndArgsUnit
+  | .selfUnbound | .objIsinstanceOrigin | .objIsinstanceType | .objHasAttr _ | .asdictKeysEqFieldKeys | .objIsIterator | .objEmptyAndArgsUnit
   | .lenObjNeLenArgs | .matchesNonTypeVar | .hasUnboundedTypeVars | .oneUnboundedTypeVar => true
   | _ => false
 
 def actFalls : Action → Bool
-  | .bindFieldTypes _ | .requireArg _ | .unpackArgs _ | .partitionTypeVars | .bindMatches _ _ | .forBoundedTryReturnTrue | .assertBaseIsGeneric => true
+  | .bindFieldTypes _ | .bindFieldTypesFirstOf _ | .bindAsDict | .requireArg _ | .unpackArgs _ | .partitionTypeVars | .bindMatches _ _ | .forBoundedTryReturnTrue | .assertBaseIsGeneric => true
   | _ => false
 
 mutual
@@ -176,7 +182,7 @@ def introJson (env : Env) (I : Intro) (v : Val) (top : Bool) : List (String × J
    ("qualnameIsNewType", jOptB I.qualnameIsNewType), ("supertype", jNat I.supertype), ("hasFieldTypes", jBool I.hasFieldTypes),
    ("annotations", match I.annotations with | some ns => jArr (ns.map jNat) | Option.none => Json.null), ("builtin", jOptS I.builtin),
    ("isGenericAlias", jBool I.isGenericAlias), ("convertOk", jBool I.convertOk), ("asClass", jOptNat I.asClass),
-   ("isProtocolMeta", jBool I.isProtocolMeta), ("ellipsis", jBool I.ellipsis),
+   ("isProtocolMeta", jBool I.isProtocolMeta), ("isNTClass", jBool I.isNTClass), ("ellipsis", jBool I.ellipsis),
    ("requiredOk", jBool (reqOk I.name I.nargs)), ("isForwardRef", jOptB (predOf "_is_forward_ref" F)), ("isNewType", jOptB (predOf "_is_type_new_type" F)),
    -- every `if` test the code can reach on this object (whatever the value), with the value the interpreter gives it
    ("guards", jArr ((gs.filter fun (id, _) => reach.contains id).map fun (id, g) => jArr [jNat id, jOptB (evalG (ext callDepth) F {} g)]))]
@@ -224,7 +230,7 @@ def handle (c : Json) : Json :=
   let o := checkType env (fun _ _ => .raisedOther) a v
   mkObj ([("out", jStr (outStr o)), ("spec", jBool (conforms env a v)), ("inVocab", jBool a.inVocab),
          ("plain", jBool v.plain), ("wf", jBool (v.wf env)), ("strAnnOk", jBool (a.strAnnOk env v)), ("noSpecial", jBool a.noSpecial),
-         ("underC01", jBool (underSound env a v)), ("regions", jArr ((regions a v ++ regionsEnv env a).map jStr))]
+         ("underC01", jBool (underSound env a v)), ("regions", jArr ((regions a v ++ regionsEnv env a ++ regionsNT env a v).map jStr))]
          ++ (if jB (jF c "ir") then irFields env a v true else if jS (jF c "ir") == "trace" then irFields env a v false else []))
 
 end PedVerif.Drv.Checker
